@@ -49,6 +49,10 @@ Fixpoint zassoc (l : list (Z * string)) (k : Z) : string :=
 
 Definition jn (a b : string) : string := (a ++ "/" ++ b)%string.
 
+(* template.go: `if args.Verbose { logger.Println("Running target:", ...) }` stands in the loop over the words only;
+   the default target (no word) is run without that announcement, verbose or not *)
+Definition announces (a : arguments) (nwords : nat) : bool := a_verbose a && Nat.ltb 0 nwords.
+
 Definition blank (m : omode) : obs :=
   {| o_mode := m; o_verbose_log := false; o_announce := None; o_verbose := false; o_debug := false; o_gocmd := ""; o_timeout := 0%Z;
      o_cwd := ""; o_build := ""; o_env := []; o_stdin := None; o_stdout := None; o_stderr := None; o_words := [] |}.
@@ -70,7 +74,7 @@ Definition model_obs (c : case) : obs :=
           let f := flags_of (match cl_parse parse_dur front_spec (c_words c) with POk a _ => a | PBad a => a | PHelp => [] end) in
           let inv := fst (fst (front_end dur_string jn true (c_layout c) f (c_env c))) in
           let w := run_compiled_wiring inv (length ws) in
-          {| o_mode := OMode (gm_mode args (length ws) has_default tenv); o_verbose_log := a_verbose args; o_announce := Some (a_verbose args);
+          {| o_mode := OMode (gm_mode args (length ws) has_default tenv); o_verbose_log := a_verbose args; o_announce := Some (announces args (length ws));
              o_verbose := mg_verbose tenv; o_debug := mg_debug tenv; o_gocmd := mg_gocmd tenv;
              o_timeout := a_timeout args; o_cwd := resolve cwd; o_build := resolve build;
              o_env := map (fun k => (k, lookup k tenv)) (c_keys c);
@@ -82,7 +86,7 @@ Definition model_obs (c : case) : obs :=
       | Rejected _ => blank ORejected
       | UsageShown => blank (OMode MUsage)
       | Runs args tenv ws =>
-          {| o_mode := OMode (gm_mode args (length ws) has_default tenv); o_verbose_log := a_verbose args; o_announce := Some (a_verbose args);
+          {| o_mode := OMode (gm_mode args (length ws) has_default tenv); o_verbose_log := a_verbose args; o_announce := Some (announces args (length ws));
              o_verbose := mg_verbose tenv; o_debug := mg_debug tenv; o_gocmd := mg_gocmd tenv;
              o_timeout := a_timeout args; o_cwd := ""; o_build := "";
              o_env := map (fun k => (k, lookup k tenv)) (c_keys c);
